@@ -51,7 +51,7 @@ RegexOKFrom(re, i) ==
   ELSE LET c == Ch(re, i) IN
     IF c = "\\" THEN i < Len(re) /\ Ch(re, i + 1) \in {".", "*", "^", "$", "\\", "/", "+", "?", "[", "]", "(", ")", "|", "{", "}"} /\ RegexOKFrom(re, i + 2)
     ELSE IF c \in ReMeta THEN FALSE
-    ELSE IF c = "*" THEN i > 1 /\ Ch(re, i - 1) \notin {"*", "^"} /\ (i < 3 \/ Ch(re, i - 2) # "\\" \/ TRUE) /\ RegexOKFrom(re, i + 1)
+    ELSE IF c = "*" THEN i > 1 /\ Ch(re, i - 1) \notin {"*", "^"} /\ RegexOKFrom(re, i + 1)
     ELSE IF c = "^" THEN i = 1 /\ RegexOKFrom(re, i + 1)
     ELSE IF c = "$" THEN i = Len(re)
     ELSE RegexOKFrom(re, i + 1)
@@ -98,7 +98,7 @@ Matches(op, needle, hay) ==
          ELSE FALSE)
       ELSE (IF op = ">" THEN LexLT(needle, hs) ELSE IF op = "<" THEN LexLT(hs, needle)
             ELSE IF op = ">=" THEN ~LexLT(hs, needle) ELSE ~LexLT(needle, hs)))
-  ELSE RegexSearch(needle, hs)
+  ELSE IF RegexOK(needle) THEN RegexSearch(needle, hs) ELSE FALSE   \* outside the fragment: Silent
 
 \* cells the documentation leaves open (compared, counted, never a verdict)
 Silent(op, needle, hay) ==
